@@ -54,9 +54,9 @@ func nontrivial(r *Runner) bool {
 var nontrivialRules = map[string]func(r *Runner) bool{
 	"C01": func(r *Runner) bool { return r.Cnt["overwrites"]+r.Cnt["deletes_present"] > 0 && r.Cnt["gets"] > 1 },
 	"C02": func(r *Runner) bool { return r.Cnt["restarts"] > 0 && len(r.States) > 2 },
-	"C03": func(r *Runner) bool { return r.Cnt["images_ok"] > 3 && len(r.States) > 2 },
-	"C04": func(r *Runner) bool { return r.Cnt["images_ok"] > 3 && r.Cnt["batches"] > 0 },
-	"C07": func(r *Runner) bool { return r.Cnt["images_ok"] > 3 && r.Cnt["merges"] > 0 },
+	"C03": func(r *Runner) bool { return r.Cnt["images_ok"] > 3 && (len(r.States) > 2 || r.Cnt["cc_groups"] > 1) },
+	"C04": func(r *Runner) bool { return r.Cnt["images_ok"] > 3 && r.Cnt["batches"]+r.Cnt["cc_batches"] > 0 },
+	"C07": func(r *Runner) bool { return r.Cnt["images_ok"] > 3 && r.Cnt["merges"]+r.Cnt["cc_merges"] > 0 },
 	"C11": func(r *Runner) bool { return r.Cnt["df_records"] > 1 && r.Cnt["df_verifications"] > 1 },
 	"C12": func(r *Runner) bool { return r.Cnt["damage_images"] > 10 && len(r.States) > 1 },
 	"C08": func(r *Runner) bool { return r.Cnt["sched_switches"] > 1 && r.Cnt["conc_puts"]+r.Cnt["conc_dels"] > 1 },
@@ -88,9 +88,9 @@ var nontrivialRules = map[string]func(r *Runner) bool{
 var NontrivialRuleText = map[string]string{
 	"C01": "case has >=1 overwrite or delete of a present key and >=2 judged reads; distinct = distinct hash of the executed case (config + concrete operations)",
 	"C02": "case has >=1 restart and >=2 acknowledged mutations; distinct = distinct hash of the executed case",
-	"C03": "run has >=2 acknowledged mutations and >=4 crash images whose recovery was judged; distinct = distinct hash of the executed case; every journal position of a run is a process-crash image, a seeded subset also gets power-loss cuts",
-	"C04": "run has >=1 committed batch and >=4 judged crash images; distinct = distinct case hash",
-	"C07": "run has >=1 successful Merge and >=4 judged crash images inside Merge / the adopting Open (plus their second-level images); distinct = distinct case hash",
+	"C03": "run has >=2 acknowledged mutations and >=4 crash images whose recovery was judged; distinct = distinct hash of the executed case; every journal position of a run is a process-crash image, a seeded subset also gets power-loss cuts; a fifth of the runs crash a database used by several clients at once (>=2 recorded mutations)",
+	"C04": "run has >=1 committed batch and >=4 judged crash images (a fifth of the runs: batches committed by several concurrent clients); distinct = distinct case hash",
+	"C07": "run has >=1 successful Merge and >=4 judged crash images inside Merge / the adopting Open (plus their second-level images), or - a fifth of the runs - inside a Merge that runs next to concurrent writers; distinct = distinct case hash",
 	"C11": "run wrote >=2 records through both back-ends and verified them at least twice (before and after reopen); distinct = distinct hash of the executed case; the thorough tier walks start offset = runIndex mod 32768 with all 19 end distances -9..+9 per run",
 	"C12": "run built a database with >=1 acknowledged mutation and judged >10 damaged images of it; distinct = distinct hash of the executed case; bit flips are complete for runs whose files total <= the flipall knob (counted in exhaustive_flip_runs), sampled otherwise",
 	"C08": "run had >=2 context switches among clients and >=2 concurrent writes; distinct = distinct hash of (programs, configuration, explicit schedule); interleavings counted separately as distinct (task, point kind, lock id) sequences",
